@@ -57,7 +57,10 @@ mod raw {
         posix::poll(&mut fds, timeout)?;
 
         Ok((
-            fds[0].test(posix::POLLOUT | posix::POLLHUP),
+            // POLLERR: the child has closed its stdin.  It must count as ready,
+            // so that the write is attempted and fails with EPIPE; otherwise
+            // "nothing ready" is mistaken for a timeout.
+            fds[0].test(posix::POLLOUT | posix::POLLHUP | posix::POLLERR),
             fds[1].test(posix::POLLIN | posix::POLLHUP),
             fds[2].test(posix::POLLIN | posix::POLLHUP),
         ))
